@@ -2,4 +2,4 @@ From Coq Require Import Extraction ExtrOcamlBasic.
 From LCP Require Import Base.ExtractBase Base.CheckedMem Util.Getopt.
 Extraction Language OCaml.
 Extraction "getopt.ml" force_number_types init_state set_optreset run_from run_from_n run_model
-  spec spec_coded is_some.
+  run_switch_from run_switch_from_n table_of miss_of spec spec_coded is_some.
